@@ -237,10 +237,12 @@ def run(pid, tier):
     good = ["0", "typ", "W7n", "C1", "some", "some"]
     for key, vs in sorted(groups.items()):
         # the example with the fewest deviations from the good request
-        vs.sort(key=lambda v: (sum(1 for x, y in zip(by_i[v["i"]]["abs"], good) if x != y), v["i"]))
+        vs.sort(key=lambda v: (sum(1 for x, y in zip(by_i[v["i"]]["abs"], good) if x != y),
+                               len(by_i[v["i"]]["w"]["allow"]), by_i[v["i"]]["q"]["entry"] != "p2", v["i"]))
         e = by_i[vs[0]["i"]]
         violations.append({"key": key,
-                           "what": "%s on the real code (%d cases, e.g. %s)" % (vs[0]["v"], len(vs), describe(e)),
+                           "what": "%s on the real code (%d violating cases over all keys; this key e.g. %s)" % (
+                               vs[0]["v"], j["nviolations"], describe(e)),
                            "replay": {"kind": "mutualclose-case", "state": states_by_sid[e["sid"]],
                                       "case": cases["cases"][e["i"] - 1], "logged": e}})
     cov["legs"]["B_impl"] = {
